@@ -79,7 +79,13 @@ def gen_inlines(rng, depth=0, in_link=False, in_em=False, in_strong=False, allow
         if fixed[0][0] != "text":
             fixed.insert(0, ("text", gen_words(rng)))
         if fixed[-1][0] != "text":
-            fixed.append(("text", gen_words(rng)))
+            # …or with an escaped punctuation character that is not a delimiter (`*Really\\!*`)
+            if not NO_ESC[0] and rng.random() < 0.5:
+                fixed.append(("esc", rng.choice("!)]#>(")))
+            else:
+                fixed.append(("text", gen_words(rng)))
+        elif not NO_ESC[0] and rng.random() < 0.15:
+            fixed.append(("esc", rng.choice("!)]#>(")))
     return fixed
 
 
